@@ -8,6 +8,7 @@ import (
 	"io"
 	"math"
 	"reflect"
+	"strconv"
 	"strings"
 )
 
@@ -66,6 +67,31 @@ func (d *Decoder) checkCompressed(head byte) (compress string) {
 	default:
 		return ""
 	}
+}
+
+// fieldError is the error of a compound entry: "fail to decode tag <name>: <err>".
+// The text is built when it is asked for, in one pass over the chain of nested entries
+// (formatting it at every level made an error 10000 compounds deep take half a minute).
+type fieldError struct {
+	name string
+	err  error
+}
+
+func (e *fieldError) Unwrap() error { return e.err }
+
+func (e *fieldError) Error() string {
+	var sb strings.Builder
+	var err error = e
+	for {
+		fe, ok := err.(*fieldError)
+		if !ok {
+			break
+		}
+		sb.WriteString("fail to decode tag " + strconv.Quote(fe.name) + ": ")
+		err = fe.err
+	}
+	sb.WriteString(err.Error())
+	return sb.String()
 }
 
 // ErrEND error will be returned when reading a NBT with only Tag_End
@@ -451,7 +477,7 @@ func (d *Decoder) unmarshal(val reflect.Value, tagType byte) error {
 					}
 					err = d.unmarshal(val, tt)
 					if err != nil {
-						return fmt.Errorf("fail to decode tag %q: %w", tn, err)
+						return &fieldError{tn, err}
 					}
 				} else if d.disallowUnknownFields {
 					return fmt.Errorf("unknown field %q", tn)
@@ -477,7 +503,7 @@ func (d *Decoder) unmarshal(val reflect.Value, tagType byte) error {
 				}
 				v := reflect.New(val.Type().Elem())
 				if err = d.unmarshal(v.Elem(), tt); err != nil {
-					return fmt.Errorf("fail to decode tag %q: %w", tn, err)
+					return &fieldError{tn, err}
 				}
 				val.SetMapIndex(reflect.ValueOf(tn), v.Elem())
 			}
@@ -493,7 +519,7 @@ func (d *Decoder) unmarshal(val reflect.Value, tagType byte) error {
 				}
 				var value any
 				if err = d.unmarshal(reflect.ValueOf(&value).Elem(), tt); err != nil {
-					return fmt.Errorf("fail to decode tag %q: %w", tn, err)
+					return &fieldError{tn, err}
 				}
 				buf[tn] = value
 			}
